@@ -65,6 +65,8 @@ type (
 	}
 	goT     struct{ s string }
 	fmtT    struct{ payload string }
+	reStrT  struct{ s string }
+	reFmtT  struct{ s string }
 	fmtWST  struct{ payload string }
 	recFmtT struct{ tag string }
 	errFmtT struct{ msg string }
@@ -103,6 +105,13 @@ func (f fmtWST) Format(s fmt.State, verb rune) {
 	io.WriteString(s, "W<")
 	io.WriteString(s, f.payload)
 	s.Write([]byte(">"))
+}
+func (r reStrT) String() string {
+	return string(redact.Sprintf("in[%s|%d|%v]", r.s, 5, redact.Safe("p")))
+}
+func (r reFmtT) Format(s fmt.State, verb rune) {
+	redact.Fprintf(s, "via[%s|%v]", r.s, redact.Safe("p"))
+	fmt.Fprint(s, redact.Sprint(r.s))
 }
 func (f recFmtT) Format(s fmt.State, verb rune) {
 	fmt.Fprintf(s, "R[%s %c", f.tag, verb)
@@ -275,6 +284,10 @@ func universe() []Val {
 	add(m("string-kind error", true, func(v int) interface{} { return strKindErr(secPlain[v]) }))
 	add(m("slice-kind error", true, func(v int) interface{} { return sliceErr{secPlain[v], secStr[v]} }))
 	add(m("[]int-kind error", true, func(v int) interface{} { return []error{errnoT(7 + v), nil} }))
+	// re-entrant user methods: they call back into the library's top-level functions while a print is in progress
+	add(m("Stringer calling Sprintf", true, func(v int) interface{} { return reStrT{secStrLF[v]} }))
+	add(m("Formatter calling Fprintf on the state", true, func(v int) interface{} { return reFmtT{secStr[v]} }))
+	add(m("[]Stringer calling Sprintf", true, func(v int) interface{} { return []interface{}{reStrT{secPlain[v]}, secInt[v], reStrT{secStr[v]}} }))
 	add(m("recFormatter", true, func(v int) interface{} { return recFmtT{secPlain[v]} }))
 	add(m("error+Formatter", true, func(v int) interface{} { return errFmtT{secStr[v]} }))
 	add(m("error+Stringer", true, func(v int) interface{} { return strErrT{secStr[v]} }))
@@ -367,6 +380,13 @@ func universe() []Val {
 		return b
 	}))
 	add(o("SafeMessager", func(v int) interface{} { return safeMsgT{secStr[v]} }))
+	add(o("SafeFormatter calling top-level Sprintf", func(v int) interface{} {
+		return scriptedFn(func(p redact.SafePrinter) {
+			p.SafeString("o:")
+			p.Print(redact.Sprintf("%s|%d", secStr[v], 3))
+			p.UnsafeString(redact.Sprint(secPlain[v]).StripMarkers())
+		})
+	}))
 	add(o("scripted SafeFormatter w/ nested Print", func(v int) interface{} {
 		return scriptedFn(func(p redact.SafePrinter) {
 			p.SafeString("a=")
